@@ -76,16 +76,25 @@ def compare(q1, q2, call, as_np, seed=0):
       return {"kind": "raises_only_in_copy", "detail": "%s: %s" % (type(e).__name__, str(e)[:200]),
               "shape": list(x.shape), "n_compared": n_cmp, "n_skipped": n_skip}
     n_cmp += 1
+    if y1.shape != y2.shape:
+      return {"kind": "output_diff", "detail": "output shapes %s vs %s" % (y1.shape, y2.shape),
+              "shape": list(x.shape), "n_compared": n_cmp, "n_skipped": n_skip}
+    if y1.shape != x.shape:
+      # a frozen / tensor-valued scale of another shape broadcast the output: compare as is
+      xb = np.broadcast_to(x.reshape((1,) * (y1.ndim - x.ndim) + x.shape) if y1.ndim >= x.ndim else x.ravel()[:1], y1.shape) \
+          if y1.ndim >= x.ndim else np.zeros(y1.shape, np.float32)
+    else:
+      xb = x
     if not np.array_equal(y1, y2, equal_nan=True):
       d = np.abs(y1.astype(np.float64) - y2.astype(np.float64))
       i = int(np.nanargmax(d))
       # x + (-x + xq) carries a rounding error of up to one ulp of x: the two float
       # paths (STE / non-STE, Variable / constant factor) may differ by that much
-      ulp = np.spacing(np.maximum(np.maximum(np.abs(y1), np.abs(y2)), np.abs(x)).astype(np.float32)).astype(np.float64)
+      ulp = np.spacing(np.maximum(np.maximum(np.abs(y1), np.abs(y2)), np.abs(xb)).astype(np.float32)).astype(np.float64)
       if np.all(d <= 4 * ulp):
         float_path = True
       else:
-        return {"kind": "output_diff", "detail": "x=%r: original %r, copy %r" % (float(x.flat[i]), float(y1.flat[i]), float(y2.flat[i])),
+        return {"kind": "output_diff", "detail": "x=%r: original %r, copy %r" % (float(np.asarray(xb).flat[i]), float(y1.flat[i]), float(y2.flat[i])),
                 "shape": list(x.shape), "n_compared": n_cmp, "n_skipped": n_skip}
     if (s1 is None) != (s2 is None):
       return {"kind": "scale_diff", "detail": "scale %r vs %r" % (s1, s2), "shape": list(x.shape),
